@@ -1,4 +1,6 @@
+pub mod config;
 pub mod crash;
+pub mod exit;
 pub mod history;
 pub mod oneshot;
 pub mod watch;
@@ -16,6 +18,8 @@ pub fn all() -> Vec<Box<dyn Property>> {
     v.extend(history::all());
     v.push(Box::new(crash::C05));
     v.extend(watch::all());
+    v.push(Box::new(exit::C10));
+    v.push(Box::new(config::C14));
     v
 }
 
